@@ -1,18 +1,18 @@
 SPECIFICATION Spec
 CONSTANTS
   KindSet = {"att", "agg", "proposal", "syncmsg", "contrib", "bcsub", "scsub", "prep"}
-  ConcSet = {1, 2, 3, 4}
-  ItemSet = {1, 2, 3, 4, 5}
-  NodeCounts = {1, 2, 3}
+  ConcSet = {1, 2, 3}
+  ItemSet = {1, 3}
+  NodeCounts = {3}
   DefaultConc = 16
   MaxCalls = 1
   HistClients = {}
   HistOutcomes = {}
-  Design = "asks"
-  MaxLat = 2
-  CanonOuts = {}
-  ConfSets = {}
-  OtherSets = {}
+  Design = "allfailed"
+  MaxLat = 3
+  CanonOuts = {"accept", "reject", "treject", "slowok1", "slowok2", "slowok3", "slowrej1", "slowrej2", "slowtrej1", "late", "hang"}
+  ConfSets = {{1}, {1, 2}, {2, 3}, {1, 2, 3}}
+  OtherSets = {{1}}
   RefKind = "att"
 INVARIANTS TypeOK FlagSound TimeoutSignalHeard OfferedInFull SuccessIff ReturnsByTimeout Independence ClassifiedByNow
 CHECK_DEADLOCK FALSE
